@@ -481,3 +481,25 @@ more("C13",
      text="The filter is also given as a callable object whose truth value is False (an empty list subclass with __call__): 'no filter' is None, nothing else.")
 more("C19",
      text="Fault flavours include persistent OSError(EAGAIN) and OSError(EIO) (the errnos a retry loop would treat as transient).")
+more("C10",
+     text="Layer 1 also launches real MultiTanProcessor.tile() jobs separately into one pyramid (serial + workers, workers + serial, both serial; overlapping segments): the harness "
+          "launches the second job while the first is inside a critical section, places reads between the other job's read and write, and holds each job's FINAL clean_lockfiles() "
+          "call back until all jobs are quiescent; every recording is validated by TLC against TileLockTrace, which also supplies the expected final content.",
+     note="The end-of-run lock-file sweep of tile() is outside the property's quantifier (DESIGN 9) and is held back by the harness; any earlier sweep runs unhindered.")
+more("C08",
+     text="Tiling objects of every kind (top-level, sub-image, sub-image of a sub-image) are also examined after the transports they can take before use - pickle protocols 2-5, copy, "
+          "deepcopy, a multiprocessing queue, inheritance across a fork into a worker process - and transported objects perform end-to-end tilings (spec: Transport is the step that "
+          "leaves the tiling unchanged; 'rebuild from the image size' is proved for top-level tilings and refuted for sub-image tilings).",
+     note="Which grid a nested sub-image belongs to is not fixed by the property (a difference there is drift); only changes caused by a transport are judged.")
+more("C18",
+     text="The unwinding realisation of Crash ranges over exception classes: KeyboardInterrupt as a real SIGINT at every crash point, and - rotating over the crash points - SystemExit, "
+          "GeneratorExit, MemoryError, an Exception and a BaseException subclass, each once or delivered again at the next transfer if publish() carries on.",
+     note="Exception classes other than KeyboardInterrupt are sampled in rotation (1 per crash edge in quick, 3 in thorough).")
+more("C07",
+     text="Chunk-by-chunk sampling is compared with the real whole-map sampler bit for bit on every pixel (C07 states equality; no boundary tolerance) for many map sizes (a spread incl. "
+          "24, 48, 96, 1000x500 in quick; every multiple of 8 to 200 and larger in thorough), with chunk grids from TLC; float sources carry +-inf, +-0.0 and extreme magnitudes, NaN "
+          "being the only undefined value, and filtered / unfiltered values are compared bit for bit.",
+     note="Chunks.GridByAxes (per-axis partition, product grid) checked by TLC for maps up to 1200x600; the heavy chunk theorems on maps up to 24x11.")
+more("C09",
+     text="Undefined bands are asymmetric up to 60 % of an input (whole tile rows / columns of a segment undefined); every deepest-level FITS tile's DATAMIN / DATAMAX cards are "
+          "compared with the range of the pixels TLC expects in it and with the single-image tiling.")
